@@ -24,14 +24,14 @@ NA = {
 
 CHECKS = {
     "C19": {
-        "level": ("fault_enumeration", "Every cut point of the single cache write is a state; the thorough tier enumerates all N-1 byte prefixes of the shipped cache (plus missing/empty/unreadable content, prefixes of a rebuilt file, both BUILD_TZ_CACHE modes), each followed by two real imports in a fresh process; quick samples structural + seeded cut points. Seeded op-level schedules of 2-3 importers over a simulated disk with crash / torn-write / ENOSPC / EIO injection cover the concurrent-import clause; real interpreter launches validate the in-process import.", "4.2"),
+        "level": ("fault_enumeration", "Every cut point of the single cache write is a state; the thorough tier enumerates all N-1 byte prefixes of the shipped cache (plus missing/empty/unreadable content, prefixes of a rebuilt file, both BUILD_TZ_CACHE modes), each followed by two real imports in a fresh process; quick samples structural + seeded cut points. Seeded op-level schedules of 2-3 importers over a simulated disk with crash / torn-write / ENOSPC / EIO injection cover the concurrent-import clause; real interpreter launches validate the in-process import; and a real interpreter is killed in the middle of its cache write (seeded cut) before real imports follow, so that whatever a dead writer leaves behind is produced by the tree under test itself.", "4.2 and 0"),
         "note": "Trusted: a crash/full disk/racing reader leaves a byte prefix of a single writer's stream; tmpfs scratch copy behaves like an installed package; bit flips and multi-writer mixed content are outside the listed states (counted, not judged). Layer b samples schedules, it does not enumerate them.",
         "technique": "deterministic simulation: state-based crash-point enumeration of the cache file + seeded simulated-disk scheduler with fault injection",
         "engine": "simdisk",
     },
     "C14": {
         "level": ("exploration", "Seeded simulation of the system clock and process zone under the custom-format parser: formats x datetimes x languages rendered by the harness, clock placed on year/month/day boundaries, frozen or ticking per read, 11 process zones; independent oracle for what the format expresses plus clock-derived fields in the process zone.", "4.7"),
-        "note": "Samples inputs and clock placements; an enumerating checker would be stronger on the input-only round-trip clause. Oracle trusts strftime-free own renderer and calendar module.",
+        "note": "Samples inputs and clock placements; an enumerating checker would be stronger on the input-only round-trip clause. Oracle trusts its own strftime-free renderer, the calendar module and pytz for the local fields of the simulated instant; 'current' means the process-local date.",
         "technique": "deterministic simulation: simulated clock (frozen / per-read ticks / boundary placement) and process zone, seeded workload, independent oracle",
         "engine": "clockworld",
     },
